@@ -1005,10 +1005,30 @@ class Crate:
             if not any(t == pth or t.startswith(pth + "<") for t in reviewed_field_tys):
                 continue
             wr[pth] = a["variants"][0]["fields"][0]["name"]
-        if not wr:
+        # thin entry points: a small branch-free function that did not exist in the reviewed tree (or kept a reviewed name but changed
+        # its signature, see _inject_aliases) and only forwards to one function of the crate with some arguments filled in
+        forwarders = set()
+        fn_table = _anchors()
+        fn_names = {k_.rsplit("::", 1)[1] for k_ in fn_table}
+        for b in self.bodies.values():
+            if b.kind == "Closure" or not b.name or not (b.file or "").startswith("src/") or b.auto_derived or (b.file or "").endswith("tst.rs"):
+                continue
+            if not (getattr(b, "thin_entry", False) or (b.name not in fn_names and not getattr(b, "real_name", None))):
+                continue
+            live = [bl for bl in b.blocks if not bl["cleanup"]]
+            if len(live) > 5 or any(bl["term"]["k"] == "switch" for bl in live):
+                continue
+            cs = [c for c in b.calls if not b.blocks[c.bb]["cleanup"]]
+            if len(cs) != 1 or cs[0].callee is None or cs[0].callee.target not in self.bodies or cs[0].callee.target == b.id:
+                continue
+            t = self.bodies[cs[0].callee.target]
+            if t.kind == "Closure" or not (t.file or "").startswith("src/") or b.closures:
+                continue
+            forwarders.add(b.id)
+        if not wr and not forwarders:
             return
         self.wrappers = wr
-        methods = set()
+        methods = set(forwarders)
         for b in self.bodies.values():
             if b.kind == "Closure" or not b.impl_self:
                 continue
@@ -1104,7 +1124,29 @@ class Crate:
         for k, sig in [(k_, s_) for k_, s0 in table.items() for s_ in [s0] + alt.get(k_, [])]:
             f, n = k.rsplit("::", 1)
             bs = by_file.get(f)
-            if not bs or any(b.name == n for b in bs):
+            if not bs:
+                continue
+            same = [b for b in bs if b.name == n]
+            if same:
+                # the name is still there.  One case is looked at: the function kept its name but lost a parameter and became a thin
+                # entry point of a new private function that has the reviewed signature (`touched_class(i, ty)` turned into
+                # `touched_class(i)` / `touched_class_analysis(i)` over `requeue_usages(i, ty)`): the new function is the reviewed one
+                if len(same) != 1 or getattr(same[0], "real_name", None):
+                    continue
+                F = same[0]
+                allsigs = [table[k]] + alt.get(k, [])
+                fsig = [F.local_ty(l) for l in range(1, F.argc + 1)] + ["->", F.local_ty(0)]
+                if fsig in allsigs or sum(1 for bl in F.blocks if not bl["cleanup"]) > 6:
+                    continue
+                tg = {c.callee.target for c in F.calls if c.callee and not F.blocks[c.bb]["cleanup"] and c.callee.target in self.bodies}
+                gs = [b for b in bs if fresh(b, f) and b.id in tg and [b.local_ty(l) for l in range(1, b.argc + 1)] + ["->", b.local_ty(0)] == sig]
+                if len(gs) == 1:
+                    self.by_name[n] = [x for x in self.by_name[n] if x is not F]
+                    F.real_name = F.name
+                    F.name = n + "__entry"
+                    F.thin_entry = True
+                    self.by_name[F.name].append(F)
+                    take(n, gs[0])
                 continue
             cands = [b for b in bs if fresh(b, f) and [b.local_ty(l) for l in range(1, b.argc + 1)] + ["->", b.local_ty(0)] == sig]
             def same_sig_unordered(b):
